@@ -1,4 +1,5 @@
 import Dtr.Model.StmtIter
+import Dtr.Model.AfterError
 import Dtr.Proofs.AsLiterals
 /-!
 # C17 — `random(n)` stays in range, draws once per evaluation, and `resetRandom` replays
@@ -138,6 +139,85 @@ theorem C17_history_grows (get : String → Option OutVal) : ∀ (e : Expr) (g g
               | panic m => simp [hc] at h
             | _ :: _ :: _ :: _ :: _, h => cases h
           · simp [hi] at h
+
+/-- **An evaluation that fails has drawn too — and nothing else**: whatever the outcome of an evaluation, the
+generator it leaves behind (`rngAfter`: the draws in front of the failing sub-expression have been made) has
+the same function and a request history that extends the old one, one entry per draw made.  So a caller who
+goes on behind an error item sees later draws, and the replay after `resetRandom`, exactly as `C17_reset_replays`
+says: the generator is still a function of the bounds requested since the last (re)seed. -/
+theorem C17_failed_eval_history (get : String → Option OutVal) : ∀ (e : Expr) (g : Rng),
+    (rngAfter get e g).f = g.f ∧
+    ∃ ds : List Int64, (rngAfter get e g).hist = g.hist ++ ds ∧ (rngAfter get e g).total = g.total + ds.length
+  | .num n, g => ⟨rfl, [], by simp [rngAfter], by simp [rngAfter]⟩
+  | .var s, g => ⟨rfl, [], by simp [rngAfter], by simp [rngAfter]⟩
+  | .un o e, g => by simpa [rngAfter] using C17_failed_eval_history get e g
+  | .bin o l r, g => by
+    simp only [rngAfter]
+    cases hl : evalG get l g with
+    | ok p =>
+      obtain ⟨a, g1⟩ := p
+      simp only
+      obtain ⟨f1, d1, h1, t1⟩ := C17_history_grows get l g g1 a hl
+      obtain ⟨f2, d2, h2, t2⟩ := C17_failed_eval_history get r g1
+      exact ⟨f2.trans f1, d1 ++ d2, by rw [h2, h1, List.append_assoc], by rw [t2, t1, List.length_append]; omega⟩
+    | err er => exact C17_failed_eval_history get l g
+    | panic m => exact C17_failed_eval_history get l g
+  | .call name args, g => by
+    unfold rngAfter
+    cases ha : funcArity name with
+    | none => exact ⟨rfl, [], by simp, by simp⟩
+    | some ar =>
+      simp only
+      by_cases hne : (ar != args.length) = true
+      · rw [if_pos hne]; exact ⟨rfl, [], by simp, by simp⟩
+      · rw [if_neg hne]
+        by_cases hr : name = "random"
+        · rw [if_pos hr]
+          match args with
+          | [] => exact ⟨rfl, [], by simp, by simp⟩
+          | _ :: _ :: _ => exact ⟨rfl, [], by simp, by simp⟩
+          | [a] =>
+            simp only
+            cases h1 : evalG get a g with
+            | ok p =>
+              obtain ⟨mx, g1⟩ := p
+              simp only
+              obtain ⟨f1, d1, hh1, t1⟩ := C17_history_grows get a g g1 mx h1
+              split
+              · exact ⟨f1, d1, hh1, t1⟩
+              · refine ⟨by simp [Rng.draw, f1], d1 ++ [mx], ?_, ?_⟩
+                · simp [Rng.draw, hh1]
+                · simp [Rng.draw, t1]; omega
+            | err er => exact C17_failed_eval_history get a g
+            | panic m => exact C17_failed_eval_history get a g
+        · rw [if_neg hr]
+          by_cases hi : name = "ite"
+          · rw [if_pos hi]
+            match args with
+            | [] => exact ⟨rfl, [], by simp, by simp⟩
+            | [_] => exact ⟨rfl, [], by simp, by simp⟩
+            | [_, _] => exact ⟨rfl, [], by simp, by simp⟩
+            | _ :: _ :: _ :: _ :: _ => exact ⟨rfl, [], by simp, by simp⟩
+            | [t, a, b] =>
+              simp only
+              cases h1 : evalG get t g with
+              | ok p =>
+                obtain ⟨x, g1⟩ := p
+                simp only
+                obtain ⟨f1, d1, hh1, t1⟩ := C17_history_grows get t g g1 x h1
+                split
+                · obtain ⟨f2, d2, h2, t2⟩ := C17_failed_eval_history get b g1
+                  exact ⟨f2.trans f1, d1 ++ d2, by rw [h2, hh1, List.append_assoc], by rw [t2, t1, List.length_append]; omega⟩
+                · obtain ⟨f2, d2, h2, t2⟩ := C17_failed_eval_history get a g1
+                  exact ⟨f2.trans f1, d1 ++ d2, by rw [h2, hh1, List.append_assoc], by rw [t2, t1, List.length_append]; omega⟩
+              | err er => exact C17_failed_eval_history get t g
+              | panic m => exact C17_failed_eval_history get t g
+          · rw [if_neg hi]; exact ⟨rfl, [], by simp, by simp⟩
+
+/-- an empty `random` range draws nothing itself: the generator behind `random(n)`, n ≤ 1, is the one behind `n` -/
+theorem C17_empty_range_no_draw (get : String → Option OutVal) (a : Expr) (g g1 : Rng) (n : Int64)
+    (he : evalG get a g = .ok (n, g1)) (hn : n ≤ 1) : rngAfter get (.call "random" [a]) g = g1 := by
+  simp [rngAfter, funcArity, he, hn]
 
 /-- **No draw for the unselected branch of `ite`**: the generator after `ite(c,a,b)` is the
 generator after `c` followed by the selected branch alone. -/
